@@ -31,6 +31,8 @@ pub enum Op {
     /// the in-process owner takes a checkpoint and restores it at once (same state; the
     /// restore clears and rebuilds the directory while the instance stays open)
     CheckpointRestore,
+    /// the in-process owner's handle is cloned and the clone dropped: the store stays open
+    CloneDropIn,
 }
 
 #[derive(Clone, Copy, Debug, PartialEq)]
@@ -177,6 +179,7 @@ pub fn gen_ops(seed: u64, n: usize) -> Vec<Op> {
             11 => Op::ExitChild(r.usize(2)),
             12 => Op::KillChild(r.usize(2)),
             13 => Op::CheckpointRestore,
+            14 => Op::CloneDropIn,
             _ => Op::Commit,
         });
     }
@@ -343,9 +346,19 @@ pub fn run_seq(dir: &Path, ops: &[Op], st: &mut Stats) -> Option<Problem> {
             }
             Op::DropIn(i) => {
                 if let Some(t) = handles[*i].take() {
+                    // every other drop happens while a transaction of that handle is still
+                    // alive (it keeps the store's core referenced) and is dropped afterwards
+                    let live = if si % 2 == 0 { t.begin_with_mode(surrealkv::Mode::ReadOnly).ok() } else { None };
                     {
                         let _g = rt.enter();
                         drop(t);
+                    }
+                    if live.is_some() {
+                        st.transitions.insert("drop_in_with_live_transaction".into());
+                    }
+                    {
+                        let _g = rt.enter();
+                        drop(live);
                     }
                     st.drops += 1;
                     if owner == Owner::In(*i) {
@@ -415,6 +428,19 @@ pub fn run_seq(dir: &Path, ops: &[Op], st: &mut Stats) -> Option<Problem> {
                     }
                     st.transitions.insert(format!("{}>checkpoint_restore", prev));
                     prev = "checkpoint_restore".into();
+                }
+            }
+            Op::CloneDropIn => {
+                if let Owner::In(i) = owner {
+                    let c = handles[i].as_ref().unwrap().clone();
+                    {
+                        let _g = rt.enter();
+                        drop(c);
+                    }
+                    // anything the dropped clone set off runs on the runtime
+                    std::thread::sleep(std::time::Duration::from_millis(15));
+                    st.transitions.insert(format!("{}>clone_drop", prev));
+                    prev = "clone_drop".into();
                 }
             }
             Op::Commit => {
